@@ -135,6 +135,9 @@ fn main() {
     cov.insert("fields".into(), json!(fs.iter().filter(|f| f.bits > 0).map(|f| json!({"field": f.name, "values": 1u32 << f.bits, "entry_points": f.targets.iter().map(|t| t.name).collect::<Vec<_>>()})).collect::<Vec<_>>()));
     cov.insert("rule".into(), json!(
         "for each enumerated field that does not select the structure being parsed: an otherwise well-formed enclosing structure with the field ranging over its entire domain (256 or 65536 values; both axes for two-byte pairs), parsed through every entry point exposing the field; oracle: accepted, and the whole decoded value equals the strict reference decode (the field equals the wire value, nothing else changes). Plus, for the raw / encrypted record envelope, the grid of every content type x 12 versions x every high byte of the declared length (complete records). Plus the hello messages (TLS and DTLS, client and server) over version x 7 randoms (HelloRetryRequest value, downgrade sentinels) x 2 session ids x 60 cipher kinds x 5 (thorough: all 256) compression ids x 4 extension blocks. Plus every record version on the first fragment / continuation / both (and two different values) of a ClientHello split over two records through TlsRecordsParser. Distinct by construction; non-trivial: every case"));
+    // the same check against the crate built with all cargo features (std, serialize, unstable)
+    let mut sink = sink;
+    run.all_features_variant(&mut sink);
     let code = run.finish(
         &sink,
         cov,
